@@ -17,13 +17,15 @@ def main():
     checks = [c['property_id'] for c in json.load(open(os.path.join(VERIF, 'MANIFEST.json')))['checks']]
     out_path = os.path.join(SEEDED, 'MATRIX.json')
     matrix = json.load(open(out_path)) if os.path.exists(out_path) else {}
-    for name in sorted(os.listdir(SEEDED)):
+    names = [n for n in sorted(os.listdir(SEEDED)) if not n.startswith('_')] + \
+            ['_harmless/' + n for n in sorted(os.listdir(os.path.join(SEEDED, '_harmless')))] if os.path.isdir(os.path.join(SEEDED, '_harmless')) else sorted(os.listdir(SEEDED))
+    for name in names:
         d = os.path.join(SEEDED, name)
         if not os.path.isdir(d) or not os.path.exists(os.path.join(d, 'patch.diff')):
             continue
         if only and name not in only:
             continue
-        pid = name.split('_')[0]
+        pid = os.path.basename(name).split('_')[0]
         todo = checks if allchecks else [pid]
         wt = tempfile.mkdtemp(prefix='mm_', dir='/tmp')
         os.rmdir(wt)
@@ -48,7 +50,11 @@ def main():
     lines = ['| seeded change | breaks | caught by its own check | other checks that raise an alarm |', '|---|---|---|---|']
     for name in sorted(matrix):
         row = matrix[name]
-        pid = name.split('_')[0]
+        pid = os.path.basename(name).split('_')[0]
+        if name.startswith('_harmless/'):
+            alarms = sorted(c for c, v in row.items() if isinstance(v, dict) and v.get('rc') != 0)
+            lines.append('| %s (harmless on the current tree) | - | %s | %s |' % (name, 'no alarm (as it should be)' if not alarms else 'FALSE ALARM', ', '.join(alarms) or '-'))
+            continue
         own = row.get(pid)
         others = sorted(c for c, v in row.items() if isinstance(v, dict) and c != pid and v.get('rc') == 1)
         lines.append('| %s | %s | %s | %s |' % (name, pid, ('yes' if own and own['rc'] == 1 else ('NO' if own else '-')), ', '.join(others) or '-'))
